@@ -27,7 +27,7 @@ add("C03", "E1-explore",
     "Bounded: <=6 seed nodes, all forests <=4 (quick) / <=5 (thorough) nodes, 4 frames, BFS depth 2-3. networkx/numpy trusted.",
     MC, "DESIGN.md 4 C03")
 
-E1NOTE = "Bounded: 6 hand seeds (<=6 nodes) + all labelled forests <=4 (quick) / <=5 (thorough) nodes, 4 frames, 4x6 pixel frames, BFS depth 2-3 (noseg) / 1-2 (seg). networkx/numpy/skimage trusted."
+E1NOTE = "Bounded: 8 hand seeds (<=8 nodes, incl. two nested levels of divisions) + one 1100-node chain (fixed 6-item menu) + ids around 255 / above 65535 + all labelled forests <=4 (quick) / <=5 (thorough) nodes, 4 frames, 4x6 pixel frames, BFS depth 2-3 (noseg) / 1-2 (seg). networkx/numpy/skimage trusted."
 
 add("C01", "E1-explore",
     "Every accepted (state, edit) pair of the bounded state space is followed by undo -> redo -> undo on the same real object; after each step the observable state (nodes, edges, every registered node/edge feature incl. custom ones, array bytes) must equal the recorded pre / post state exactly. Worlds: with/without segmentation, 2D/3D, per-axis positions, pre-built FeatureDict, given non-contiguous ids, all regionprops features.",
@@ -54,17 +54,17 @@ SEGNOTE = "Bounded: 6-7 hand seeds with rectangular masks in 4 frames of 4x6 (2D
 E2M = "explicit-state model checking of the implementation against a reference model (exhaustive enumeration of all call sequences up to a length bound, lock-step list+cursor / set model, no state merging)"
 
 add("C02", "E2-histories",
-    "All sequences over {edit_1..edit_6, undo, redo} up to length 5 (quick) / 6-7 (thorough) for three menus (forced add-edge / add-node nesting other user actions, swap, delete, set-attr; paint strokes that nest delete-node / add-node) plus all sequences over the full state-dependent alphabet + undo + redo up to length 2-3 are executed from scratch on fresh real objects in lock step with a 10-line timeline model (list of observed states + cursor, undone steps appended in reverse). Checked after every call: return value, state == timeline[cursor] (so one undo after any accepted action - however many primitives or nested user actions it contains - lands on the previous state), a False step changes nothing; at every leaf undo-until-False must visit timeline[cursor::-1]. C03-C06 invariants are re-checked after every undo/redo.",
+    "All sequences over {edit_1..edit_6, undo, redo} up to length 5 (quick) / 6-7 (thorough) for three menus (forced add-edge / add-node nesting other user actions, swap, delete, set-attr; paint strokes that nest delete-node / add-node) plus all sequences over the full state-dependent alphabet + undo + redo up to length 2-3 are executed from scratch on fresh real objects in lock step with a 10-line timeline model (list of observed states + cursor, undone steps appended in reverse). Checked after every call: return value, state == timeline[cursor] (so one undo after any accepted action - however many primitives or nested user actions it contains - lands on the previous state), a False step changes nothing; at every leaf undo-until-False must visit timeline[cursor::-1]. C03-C06 invariants are re-checked after every undo/redo. Further 4-6 item menus run to length 7-9: edits that depend on each other (A, B, undo, undo, C, undo, undo[, undo]) on a chain, on lineage-changing edits and on strokes, a change in the 7th digit of a value, cuts above two nested divisions, and a 1100-node chain.",
     "Bounded by menu and length; no state merging (futures depend on the hidden stacks). The model/implementation binding is total within the bound: every enumerated sequence is an implementation trace.",
     E2M, "DESIGN.md 4 C02")
 add("C07", "E1-explore",
-    "In segmentation worlds (2D+t and 3D+t) every reachable state and every state after undo/redo is checked for label<->node one-to-one correspondence (every node labels >=1 pixel and only in its frame, every label is a node, get_pixels exact); every paint/erase transition is checked byte-for-byte against the array as painted by the driver, undo against the pre-paint bytes, redo against the painted bytes.",
+    "In segmentation worlds (2D+t and 3D+t) every reachable state and every state after undo/redo is checked for label<->node one-to-one correspondence (every node labels >=1 pixel and only in its frame, every label is a node, get_pixels exact); every paint/erase transition is checked byte-for-byte against the array as painted by the driver, undo against the pre-paint bytes, redo against the painted bytes. All call sequences up to length 4 / 7 (quick) over two stroke menus are compared with the timeline model (array restored bit for bit by every undo / redo); strokes leaving 0 / 1 / 2 / 5 pixels of a 12-pixel and of a 104 640-pixel mask (erase / neighbouring label / new label, with and without scale) are checked for node removal, area, correspondence and undo.",
     SEGNOTE, MC, "DESIGN.md 4 C07")
 add("C08", "E1-explore",
     "For every reachable state of segmentation worlds with scale None / isotropic / anisotropic and feature subsets {core, +circularity, +ellipse axes, all regionprops} in 2D and 3D, after every edit, undo and redo: area and position vs an independent numpy reference (count x voxel, scaled mean index), and every enabled regionprops feature vs a from-scratch SolutionTracks built on a copy of the array (exact equality). All sequences that switch area / pos / circularity / ellipse axes off and on around mask edits, undo and redo (E2, length 3-4) are held to the same oracles.",
     SEGNOTE + " numpy reference uses rel_tol 1e-12; differential oracle is exact.", MC, "DESIGN.md 4 C08")
 add("C09", "E1-explore",
-    "For every reachable state of segmentation worlds with iou enabled (consecutive-frame and frame-skipping edges with non-trivial overlap), after every edit, undo and redo: stored IoU of every edge vs exact Fraction |A&B|/|A|B| on the array, and incremental value vs bulk value computed by a from-scratch twin with enable_features(['iou']). Enabling iou at any point of a history: all sequences over {enable, disable, strokes incl. one that makes an overlap exactly 0, add/delete node, undo, redo} up to length 3-4 (E2) are held to the same oracle.",
+    "For every reachable state of segmentation worlds with iou enabled (consecutive-frame and frame-skipping edges with non-trivial overlap), after every edit, undo and redo: stored IoU of every edge vs exact Fraction |A&B|/|A|B| on the array, and incremental value vs bulk value computed by a from-scratch twin with enable_features(['iou']). Enabling iou at any point of a history: all sequences over {enable, disable, strokes incl. one that makes an overlap exactly 0, add/delete node, undo, redo} up to length 3-4 (E2) are held to the same oracle. Label widths: uint8 arrays with ids whose products wrap (16*32), ids around 255 and above 2**16 whose packed pair keys / products wrap in 32 bits.",
     SEGNOTE, MC, "DESIGN.md 4 C09")
 add("C10", "E2-histories",
     "All sequences up to length 3-4 (quick) / 4-5 (thorough) over {enable(F), disable(F), enable/disable(unknown, also listed after a valid key), edits, protected set-attr, undo, redo} on segmentation and non-segmentation tracks built with and without a pre-built FeatureDict, in lock step with a set model (static + enabled). After every call: registry == static+enabled, annotator active set == enabled, all values of every enabled feature equal the C04/C05/C06/C08/C09 reference oracles, raw values of disabled features unchanged by edits, unknown key -> KeyError and identical snapshot, managed attributes and time refused by set-attr whether enabled or not.",
@@ -87,19 +87,19 @@ add("C19", "E3-smallscope",
     "Bounded shapes and label values.", E3M, "DESIGN.md 4 C19")
 
 add("C12", "E3-smallscope",
-    "tracks_from_df on every labelled forest <=3 (quick) / <=4 (thorough) nodes x id scheme {1..n, non-contiguous, containing 0, descending, strings in sorted and unsorted row order, non-integer floats} x parent encoding {-1, NaN, -1 on a reversed table with a non-default index, float time column} x {2D, 3D with an integer z column next to float y/x} x column naming {standard, all renamed, id renamed, an unrelated column spelled like a standard key} x custom columns {none, dense, sparse; scalar and list-valued string} x position / column order {standard, reversed}; import_from_geff on stores written with geff.write (forests x id schemes x dims x namings x {per-axis, permuted, pre-stacked position}). Oracle: nodes == source ids (or a link-preserving bijection for renumbered ids), edges == parent links, time / position in mapped order / every mapped property == source cell. Malformed tables (duplicate id, unknown parent, self link at every row; missing required column / mapping) and tampered GEFF stores (duplicate id, unknown endpoint, self link) must raise ValueError.",
+    "tracks_from_df on every labelled forest <=3 (quick) / <=4 (thorough) nodes x id scheme {1..n, non-contiguous, containing 0, descending, strings in sorted and unsorted row order, non-integer floats, integers above 2**53} x parent encoding {-1, NaN, -1 on a reversed table with a non-default index, float time column} x {2D, 3D with an integer z column next to float y/x} x column naming {standard, all renamed, id renamed, an unrelated column spelled like a standard key} x custom columns {none, dense, sparse; scalar and list-valued string; two integer columns with values above 2**53 mapped to one property} x position / column order {standard, reversed}; import_from_geff on stores written with geff.write (forests x id schemes x dims x namings x {per-axis, permuted, pre-stacked position}). Oracle: nodes == source ids (or a link-preserving bijection for renumbered ids), edges == parent links, time / position in mapped order / every mapped property == source cell. Malformed tables (duplicate id, unknown parent, self link at every row; missing required column / mapping) and tampered GEFF stores (duplicate id, unknown endpoint, self link) must raise ValueError.",
     "Bounded forests and value schemes; pandas / geff / zarr trusted.", E3M, "DESIGN.md 4 C12")
 add("C14", "E1-explore",
     "The distinct states of a BFS over the real objects (edited sessions: non-contiguous ids, divisions, skip edges, isolated nodes, custom features) in worlds {2D, 3D, per-axis positions, given ids, with segmentation 2D / 3D anisotropic} are each rebuilt and written and re-read as CSV, internal format and GEFF with the explicit corresponding key mapping; compared: nodes, edges, times, positions, track ids, lineage partition, loaded node/edge features, array (GEFF, internal), scale and registry (internal).",
-    "GEFF round trips cost 0.3-0.5 s and run on smaller state sets than CSV/internal (all states of their own BFS bound, no sampling). One genuine defect is recorded as KF-C14-geff-seg-centroid-outside-mask. The empty solution is not exported.",
+    "GEFF round trips cost 0.3-0.5 s and run on smaller state sets than CSV/internal (all states of their own BFS bound, no sampling). Also a 65-frame movie of 64x65 pixels and ids above 2**16 (depth 0). One genuine defect is recorded as KF-C14-geff-seg-centroid-outside-mask. The empty solution is not exported.",
     MC + " + file round trip per distinct state", "DESIGN.md 4 C14")
 add("C15", "E3-smallscope",
-    "All labelled forests <=4 (quick) / <=5 (thorough) nodes x all 2^N node subsets x {CSV, GEFF} x {without, with segmentation}, with ids ascending, descending in time, zero-based and above 255, a frame wider than one 64-pixel chunk of the GEFF exporter, a 24-node case with wide sparse ids, and a second selection exported from the same object: written node set == selection + ancestors (independent recursive parent walk), written edges == induced edges, exported array == source masked to exactly those ids (GEFF) / those nodes labelled by track (CSV tif).",
+    "All labelled forests <=4 (quick) / <=5 (thorough) nodes x all 2^N node subsets x {CSV, GEFF} x {without, with segmentation}, with ids ascending, descending in time, zero-based and above 255, a frame wider than one 64-pixel chunk of the GEFF exporter, a 24-node case with wide sparse ids, a 66-frame chain (64-frame chunks of the exporter), track ids >= 256 on node ids <= 4, and a second selection exported from the same object: written node set == selection + ancestors (independent recursive parent walk), written edges == induced edges, exported array == source masked to exactly those ids (GEFF) / those nodes labelled by track (CSV tif).",
     "Quick tier runs GEFF for all forests <=3 nodes (all subsets) and single-node selections of 4-node forests; CSV everywhere. geff / zarr / tifffile trusted.",
     E3M, "DESIGN.md 4 C15")
 add("C16", "E1-explore",
     "Every distinct state of a BFS over the real objects in worlds {scale None / given, single-key / per-axis position, with / without segmentation} is rebuilt and each read-only operation (export_to_csv full / subset / display names / with segmentation, export_to_geff full / subset, save_tracks, and a bundle of every query incl. get_track_neighbors and has_track_id_at_time for every id and time) is executed separately; the full snapshot (graph, raw attributes, array bytes and identity, scale value and type, registry, lookups as sets, counters, both history stacks) must be identical before and after.",
-    "Bounded state sets (depth 0-1); geff / zarr / pandas trusted.", MC + " + operation bundle per distinct state", "DESIGN.md 4 C16")
+    "Bounded state sets (depth 0-1) plus a 65-frame movie of 64x65 pixels (one complete 64^3 chunk of the GEFF exporter), uint8 labels, ids around 255 / above 65535; geff / zarr / pandas trusted.", MC + " + operation bundle per distinct state", "DESIGN.md 4 C16")
 
 NOT_APPLICABLE = {}
 
